@@ -2,18 +2,17 @@
 C03 geometry on the footnote grammar (PM stage 2b).
 
 * `layout_line_fits`, `paginate_line_fits` — every line of every page ends above the bottom of the page box, the
-  first line of the page excepted — for every `@footnote` style whose vertical margins/paddings/borders sum to ≥ 0
-  (`AreaHyp`; bottom decorations allowed since repair 8db5909) and footnote bodies of non-negative heights; through
-  nested blocks, cloned decorations, the second layout, `find_earlier_page_break`, and every footnote being laid
-  out, postponed or un-laid-out on the way.
-  Why the hypothesis: with a top margin more negative than its content is high, a non-empty footnote area has a
-  margin box of negative height and *raises* `page_bottom` above the page box
-  (`Witness/C01Foot.area_negative_margin_box_overflows`, finding footnote-area-negative-margin-box; the emptied-area
-  case, finding footnote-area-negative-margin-overflow, is repaired: 84e5b27).
-* `page_bottom_exact` — for every `@footnote` style `context.page_bottom` always is the page bottom minus the margin
-  height of the footnote area (full strength since repair 8db5909: the former witness `page_bottom_drifts` is the
-  regression example `page_bottom_no_drift`); `page_bottom_le` — and never exceeds the page box bottom under
-  `AreaHyp`.
+  first line of the page excepted — for **every** `@footnote` style (any margins, negative ones included, bottom
+  decorations, `max-height`, per-page-type rules) and footnote bodies of non-negative heights; through nested blocks,
+  cloned decorations, the second layout, `find_earlier_page_break`, and every footnote being laid out, postponed or
+  un-laid-out on the way.  Full strength since repair 2efefde (what the area takes from the page is clamped at 0):
+  the hypothesis `AreaHyp` (decorations sum ≥ 0) these theorems had is gone; the former witness
+  `area_negative_margin_box_overflows` is the regression theorem `Witness/C01Foot.area_negative_margin_box_clamped`
+  (earlier: 84e5b27 for the emptied area, 8db5909 for the fragmented one).
+* `page_bottom_exact` — for every `@footnote` style `context.page_bottom` always is the page bottom minus the
+  (clamped) margin height of the footnote area; `page_bottom_le` — and never exceeds the page box bottom.
+* `para_lines_above_footnotes`, `page_bottom_is_area_top` — the lines of a paragraph end above `page_bottom` as the
+  layout leaves it, which is the top of the footnote area put on the page (or the page box bottom if that is higher).
 * the footnote area: it ends exactly at the page bottom (`area_at_page_bottom`), its footnotes are stacked without
   gap or overlap (`area_stacked`).
 -/
@@ -26,10 +25,10 @@ open Wp Wp.PM Wp.PMF
 
 /-- **Line fits, whole layout, with footnotes.** -/
 theorem layout_line_fits (box : FootBox) (hd : DecoOk box.erase) (hh : HeightsOk box) (c : FCtx) (idx : Nat)
-    (y bs : Rat) (skip : Option Resume) (cb pie : Bool) (adjL : List Rat) (fs : FState) (ha : AreaHyp c.area)
+    (y bs : Rat) (skip : Option Resume) (cb pie : Bool) (adjL : List Rat) (fs : FState)
     (hinv : PbInv c fs) (f : Frag) (hf : (layoutBoxF c box idx y bs skip cb pie adjL fs).r.frag = some f) :
     ∀ l ∈ placedLines f pie box.erase, l.exempt = true ∨ overflows (c.pageH - bs) (l.y + l.lineH) = false :=
-  (boxF_fits box hd hh c idx y bs skip cb pie adjL fs ha hinv).1 f hf
+  (boxF_fits box hd hh c idx y bs skip cb pie adjL fs hinv).1 f hf
 
 /-- **`page_bottom` bookkeeping is exact** (any `@footnote` style, any box styles): after any layout the page
 bottom is the page box bottom minus the margin height of the footnote area (or untouched when no footnote was ever
@@ -39,11 +38,11 @@ theorem page_bottom_exact (box : FootBox) (hh : HeightsOk box) (c : FCtx) (idx :
     PbInv c (layoutBoxF c box idx y bs skip cb pie adjL fs).fs :=
   boxF_inv box hh c idx y bs skip cb pie adjL fs hinv
 
-/-- … and never exceeds the page box bottom when the decorations of the area sum to ≥ 0. -/
+/-- … and never exceeds the page box bottom, whatever the `@footnote` style (full strength since 2efefde). -/
 theorem page_bottom_le (box : FootBox) (hh : HeightsOk box) (c : FCtx) (idx : Nat)
-    (y bs : Rat) (skip : Option Resume) (cb pie : Bool) (adjL : List Rat) (fs : FState) (ha : AreaHyp c.area)
+    (y bs : Rat) (skip : Option Resume) (cb pie : Bool) (adjL : List Rat) (fs : FState)
     (hinv : PbInv c fs) : (layoutBoxF c box idx y bs skip cb pie adjL fs).fs.pageBottom ≤ c.pageH :=
-  (boxF_inv box hh c idx y bs skip cb pie adjL fs hinv).le ha
+  (boxF_inv box hh c idx y bs skip cb pie adjL fs hinv).le
 
 /-! ### a line and the footnotes it keeps on the page -/
 
@@ -169,7 +168,7 @@ theorem line_above_area_top (c : FCtx) (guard pie : Bool) (bs y : Rat) (F : List
     (hinv : PbInv c fs) (hF : ∀ f ∈ F, 0 ≤ f.height)
     (h : footLoop c guard pie bs y F fs = (.ok, fs')) (hrep : fs'.reported = []) (hne : fs' ≠ fs) :
     ∃ areaH, fs'.areaH = some areaH ∧
-      overflows (c.pageH - c.area.marginHeight areaH - bs) y = false := by
+      overflows (c.pageH - max0 (c.area.marginHeight areaH) - bs) y = false := by
   have hinv' : PbInv c fs' := by
     have := footLoop_inv c guard pie bs y F fs hinv hF
     rw [h] at this; exact this
@@ -200,7 +199,7 @@ page, ends above `context.page_bottom` *as the layout leaves it*: the page botto
 holds all footnotes taken so far, those called from this paragraph included (`PbX`: `page_bottom = pbOf cur`).
 Through every footnote laid out, postponed (`footnote-policy` auto/line/block) or un-laid-out by `_break_line`. -/
 theorem para_lines_above_footnotes (id n : Nat) (lineH : Rat) (st : PStyle) (calls : List Call) (hd : st.DecoOk)
-    (hh : ∀ cl ∈ calls, 0 ≤ (cl.m : Rat) * cl.h) (hlh : 0 ≤ lineH) (c : FCtx) (ha : AreaHyp c.area) (idx : Nat)
+    (hh : ∀ cl ∈ calls, 0 ≤ (cl.m : Rat) * cl.h) (hlh : 0 ≤ lineH) (c : FCtx) (idx : Nat)
     (y bs : Rat) (skip : Option Resume) (cb pie : Bool) (adjL : List Rat) (fs : FState) (hx : PbX c fs) (f : Frag)
     (hf : (layoutBoxF c (.para id n lineH st calls) idx y bs skip cb pie adjL fs).r.frag = some f) :
     let fs' := (layoutBoxF c (.para id n lineH st calls) idx y bs skip cb pie adjL fs).fs
@@ -208,7 +207,7 @@ theorem para_lines_above_footnotes (id n : Nat) (lineH : Rat) (st : PStyle) (cal
     ∀ l ∈ placedLines f pie (.para id n lineH st), l.exempt = true ∨
       overflows (pbOf c fs'.cur - bs) l.bottom = false := by
   intro fs'
-  obtain ⟨h1, h2⟩ := para_fits_final id n lineH st calls hd hh hlh c ha idx y bs skip cb pie adjL fs hx f hf
+  obtain ⟨h1, h2⟩ := para_fits_final id n lineH st calls hd hh hlh c idx y bs skip cb pie adjL fs hx f hf
   refine ⟨h1.2, ?_⟩
   intro l hl
   rcases h2 l hl with h | h
@@ -219,9 +218,10 @@ theorem para_lines_above_footnotes (id n : Nat) (lineH : Rat) (st : PStyle) (cal
     exact h
 
 /-- `pbOf`: with no footnote in the area the page bottom is the page box bottom; with some, it is the top of the
-area's margin box (`areaOut.y`). -/
+area's margin box (`areaOut.y`) — or the page box bottom when that top lies below it (margin box of negative
+height: the clamp of repair 2efefde). -/
 theorem pbOf_is_area_top (c : FCtx) (cur : List Fn) (o : AreaOut) (h : areaOut c.area c.pageH cur = some o) :
-    pbOf c cur = o.y := by
+    pbOf c cur = if o.y ≤ c.pageH then o.y else c.pageH := by
   have hb := areaOut_bottom c.area c.pageH cur o h
   unfold areaOut at h
   split at h
@@ -229,34 +229,10 @@ theorem pbOf_is_area_top (c : FCtx) (cur : List Fn) (o : AreaOut) (h : areaOut c
   · rename_i hne
     unfold pbOf
     rw [if_neg hne]
-    grind
+    unfold max0
+    split <;> split <;> grind
 
 /-! ### pages -/
-
-theorem lookup_mem {α : Type} (l : List (String × α)) (k : String) (a : α) (h : l.lookup k = some a) :
-    ∃ e ∈ l, e.2 = a := by
-  induction l with
-  | nil => simp at h
-  | cons x xs ih =>
-    obtain ⟨k', v⟩ := x
-    simp only [List.lookup_cons] at h
-    split at h
-    · simp only [Option.some.injEq] at h
-      exact ⟨(k', v), by simp, h⟩
-    · obtain ⟨e, he, hv⟩ := ih h
-      exact ⟨e, by simp [he], hv⟩
-
-/-- Every page type has an `@footnote` style satisfying `AreaHyp` when the unnamed rule and every named rule do. -/
-theorem areaHyp_all (d : FDoc) (h0 : AreaHyp d.area) (hn : ∀ e ∈ d.named, AreaHyp e.2) :
-    ∀ name, AreaHyp (d.areaFor name) := by
-  intro name
-  unfold FDoc.areaFor
-  split
-  · rename_i a ha
-    obtain ⟨e, he, rfl⟩ := lookup_mem _ _ _ ha
-    exact hn e he
-  · exact h0
-
 
 def pageSourceF (d : FDoc) (p : FPage) : FootBox := if p.page.type.blank then emptyRootF d.root else d.root
 
@@ -280,7 +256,6 @@ theorem placeReported_inv (c : FCtx) (L : List Fn) (i : Nat) (fs : FState) (h : 
 
 /-- One page: the lines fit, and what the page postpones still has non-negative heights. -/
 theorem remakePageF_line_fits (d : FDoc) (hd : DecoOk d.root.erase) (hh : HeightsOk d.root)
-    (ha : ∀ name, AreaHyp (d.areaFor name))
     (index : Nat) (resume : Option Resume) (np : NextPage) (right : Bool) (pending reported : List Fn)
     (hrep : ∀ f ∈ reported, 0 ≤ f.height) (p : FPage)
     (hp : remakePageF d index resume np right pending reported = some p) :
@@ -303,7 +278,7 @@ theorem remakePageF_line_fits (d : FDoc) (hd : DecoOk d.root.erase) (hh : Height
       · exact ⟨by rw [erase_emptyRootF]; exact decoOk_emptyRoot _ hd, heightsOk_emptyRootF _⟩
       · exact ⟨hd, hh⟩
     have hfit := boxF_fits _ hsrc.1 hsrc.2 (pageCtxOf d index resume np right reported) 0 0 0 resume false true []
-      (pageStart d (pageCtxOf d index resume np right reported) pending reported) (ha _) hinv0
+      (pageStart d (pageCtxOf d index resume np right reported) pending reported) hinv0
     subst hp
     constructor
     · intro l hl
@@ -329,14 +304,15 @@ theorem pbOf_empty (c : FCtx) (cur : List Fn) (h : cur.isEmpty = true) : pbOf c 
 /-- **When a page is done, `context.page_bottom` is the top of the footnote area put on it** (any `@footnote`
 style, any box styles): the state in which the layout of the root box ends holds the page's footnotes, its
 `page_bottom` is `pbOf` of them, and that is the `y` of the area rendered on the page (the page box bottom when the
-page has no footnote). With `para_lines_above_footnotes` this ties the bound the lines were checked against to the
+page has no footnote, or when the area's margin box starts below it). With `para_lines_above_footnotes` this ties the bound the lines were checked against to the
 box drawn on the page. -/
 theorem page_bottom_is_area_top (d : FDoc) (hh : HeightsOk d.root) (index : Nat) (resume : Option Resume)
     (np : NextPage) (right : Bool) (pending reported : List Fn) (hrep : ∀ f ∈ reported, 0 ≤ f.height) (p : FPage)
     (hp : remakePageF d index resume np right pending reported = some p) :
     ∃ fsEnd : FState, fsEnd.cur = p.cur ∧
       fsEnd.pageBottom = pbOf (pageCtxOf d index resume np right reported) p.cur ∧
-      (p.area = none → fsEnd.pageBottom = d.pageH) ∧ (∀ o, p.area = some o → o.y = fsEnd.pageBottom) := by
+      (p.area = none → fsEnd.pageBottom = d.pageH) ∧
+      (∀ o, p.area = some o → fsEnd.pageBottom = if o.y ≤ d.pageH then o.y else d.pageH) := by
   unfold remakePageF at hp
   dsimp only at hp
   split at hp
@@ -363,12 +339,134 @@ theorem page_bottom_is_area_top (d : FDoc) (hh : HeightsOk d.root) (index : Nat)
     · intro o ho
       simp only at ho
       rw [hx.2]
-      exact (pbOf_is_area_top _ _ o ho).symm
+      exact pbOf_is_area_top _ _ o ho
+
+/-! ### body text and the footnote area, whole pages of single-chain documents -/
+
+theorem single_emptyRootF (b : FootBox) (hl : LineHOk b) : Single (emptyRootF b) ∧ LineHOk (emptyRootF b) := by
+  cases b with
+  | para id n lineH st calls => simpa [emptyRootF, Single, LineHOk] using hl
+  | block id st kids => simp [emptyRootF, Single, SingleList, LineHOk, LineHOkList]
+
+/-- **Body text does not run into the footnote area** (C03 with footnotes), whole pages, for documents that are a
+chain of boxes around one paragraph (`Single`: every block has at most one child — html > body > p, any
+decorations, breaks, orphans/widows, any footnote policies, any `@footnote` styles): on every page made by
+`make_page`, every line but the first ends above `context.page_bottom` as it is when the page is done, `pbOf` of
+the page's footnotes — by `page_bottom_is_area_top` the top of the footnote area rendered on the page (the page box
+bottom when there is none).  The general case needs, in addition, that sibling boxes are stacked (non-negative
+margins); it is stated on the implementation's output by the judge `pm_foot_corr.overlap_violation`. -/
+theorem single_chain_lines_above_area (d : FDoc) (hs : Single d.root) (hd : DecoOk d.root.erase)
+    (hh : HeightsOk d.root) (hl : LineHOk d.root) (index : Nat) (resume : Option Resume) (np : NextPage)
+    (right : Bool) (pending reported : List Fn) (hrep : ∀ f ∈ reported, 0 ≤ f.height) (p : FPage)
+    (hp : remakePageF d index resume np right pending reported = some p) :
+    ∀ l ∈ (placedLines p.page.root true (pageSourceF d p).erase).tail,
+      overflows (pbOf (pageCtxOf d index resume np right reported) p.cur) (l.y + l.lineH) = false := by
+  unfold remakePageF at hp
+  dsimp only at hp
+  split at hp
+  · cases hp
+  · rename_i f hfrag
+    simp only [Option.some.injEq] at hp
+    have hx0 : PbX (pageCtxOf d index resume np right reported)
+        (pageStart d (pageCtxOf d index resume np right reported) pending reported) := by
+      unfold pageStart
+      apply placeReported_pbx _ _ _ _ _ hrep
+      exact pbx_page_start _ pending
+    have hsrc : Single (if isBlankF d resume np right reported = true then emptyRootF d.root else d.root) ∧
+        DecoOk (if isBlankF d resume np right reported = true then emptyRootF d.root else d.root).erase ∧
+        HeightsOk (if isBlankF d resume np right reported = true then emptyRootF d.root else d.root) ∧
+        LineHOk (if isBlankF d resume np right reported = true then emptyRootF d.root else d.root) := by
+      split
+      · exact ⟨(single_emptyRootF _ hl).1, by rw [erase_emptyRootF]; exact decoOk_emptyRoot _ hd,
+          heightsOk_emptyRootF _, (single_emptyRootF _ hl).2⟩
+      · exact ⟨hs, hd, hh, hl⟩
+    have hfit := boxF_chain _ hsrc.1 hsrc.2.1 hsrc.2.2.1 hsrc.2.2.2 (pageCtxOf d index resume np right reported)
+      0 0 0 resume false true [] (pageStart d (pageCtxOf d index resume np right reported) pending reported) hx0
+    subst hp
+    intro l hl'
+    have hex := (placedLines_exempt f true (pageSourceF d _).erase).1 l hl'
+    have hmem := List.mem_of_mem_tail hl'
+    simp only [pageSourceF] at hex hmem
+    rcases hfit.2 f hfrag l hmem with h | h
+    · rw [hex] at h; cases h
+    · simp only [Ctx.overflowsPage, ctxOf, PlacedLine.bottom] at h
+      rw [hfit.1.2] at h
+      have e : ∀ a : Rat, a - 0 = a := by intro a; grind
+      rw [e] at h
+      exact h
+
+/-- The layout context as far as `pbOf` looks at it: the `@footnote` style of the page's type and the page height. -/
+def areaCtx (d : FDoc) (p : FPage) : FCtx :=
+  { area := d.areaFor p.page.type.name, pageH := d.pageH, currentPage := 0, forcedBreak := false, tbl := [] }
+
+theorem pbOf_ctx (c c' : FCtx) (cur : List Fn) (h1 : c.area = c'.area) (h2 : c.pageH = c'.pageH) :
+    pbOf c cur = pbOf c' cur := by
+  unfold pbOf; rw [h1, h2]
+
+theorem remakePageF_name (d : FDoc) (index : Nat) (resume : Option Resume) (np : NextPage) (right : Bool)
+    (pending reported : List Fn) (p : FPage) (hp : remakePageF d index resume np right pending reported = some p) :
+    p.page.type.name = pageNameF d resume np right reported := by
+  unfold remakePageF at hp
+  dsimp only at hp
+  split at hp
+  · cases hp
+  · simp only [Option.some.injEq] at hp
+    subst hp
+    rfl
+
+/-- **… on all pages of a single-chain document**: on every page of the pagination, every line but the first ends
+above `pbOf` of the page's own footnotes in the page type's `@footnote` style — the top of the footnote area
+rendered on that page. -/
+theorem single_chain_paginate (d : FDoc) (hs : Single d.root) (hd : DecoOk d.root.erase)
+    (hh : HeightsOk d.root) (hl : LineHOk d.root) (fuel : Nat) (pages : List FPage)
+    (h : paginateFoot d fuel = some pages) :
+    ∀ p ∈ pages, ∀ l ∈ (placedLines p.page.root true (pageSourceF d p).erase).tail,
+      overflows (pbOf (areaCtx d p) p.cur) (l.y + l.lineH) = false := by
+  have key : ∀ (fuel index : Nat) (resume : Option Resume) (np : NextPage) (right : Bool)
+      (pending reported : List Fn) (pages : List FPage), (∀ f ∈ reported, 0 ≤ f.height) →
+      makeAllPagesF d fuel index resume np right pending reported = some pages →
+      ∀ p ∈ pages, ∀ l ∈ (placedLines p.page.root true (pageSourceF d p).erase).tail,
+        overflows (pbOf (areaCtx d p) p.cur) (l.y + l.lineH) = false := by
+    intro fuel
+    induction fuel with
+    | zero => intro index resume np right pending reported pages _ h; simp [makeAllPagesF] at h
+    | succ fuel ih =>
+      intro index resume np right pending reported pages hrep h
+      unfold makeAllPagesF at h
+      split at h
+      · cases h
+      · rename_i p hp
+        have hpage : ∀ l ∈ (placedLines p.page.root true (pageSourceF d p).erase).tail,
+            overflows (pbOf (areaCtx d p) p.cur) (l.y + l.lineH) = false := by
+          intro l hl'
+          have := single_chain_lines_above_area d hs hd hh hl index resume np right pending reported hrep p hp l hl'
+          rw [pbOf_ctx (areaCtx d p) (pageCtxOf d index resume np right reported) p.cur
+            (by simp only [areaCtx, pageCtxOf]
+                rw [remakePageF_name d index resume np right pending reported p hp]) rfl]
+          exact this
+        have hrep' := (remakePageF_line_fits d hd hh index resume np right pending reported hrep p hp).2
+        split at h
+        · simp only [Option.some.injEq] at h
+          subst h
+          intro q hq
+          simp only [List.mem_singleton] at hq
+          subst hq
+          exact hpage
+        · split at h
+          · rename_i ps hps
+            simp only [Option.some.injEq] at h
+            subst h
+            intro q hq
+            rcases List.mem_cons.mp hq with rfl | hq
+            · exact hpage
+            · exact ih _ _ _ _ _ _ ps hrep' hps q hq
+          · cases h
+  unfold paginateFoot at h
+  exact key fuel 0 none _ _ _ [] pages (by simp) h
 
 /-- **Line fits, all pages of a footnote document** (C03): on every page, every line but possibly the first ends
 above the bottom of the page box. -/
 theorem paginate_line_fits (d : FDoc) (hd : DecoOk d.root.erase) (hh : HeightsOk d.root)
-    (ha : ∀ name, AreaHyp (d.areaFor name))
     (fuel : Nat) (pages : List FPage) (h : paginateFoot d fuel = some pages) :
     ∀ p ∈ pages, ∀ l ∈ (placedLines p.page.root true (pageSourceF d p).erase).tail,
       l.y + l.lineH ≤ d.pageH * (1 + 1 / 1000000000) := by
@@ -386,7 +484,7 @@ theorem paginate_line_fits (d : FDoc) (hd : DecoOk d.root.erase) (hh : HeightsOk
       split at h
       · cases h
       · rename_i p hp
-        obtain ⟨hpage, hrep'⟩ := remakePageF_line_fits d hd hh ha index resume np right pending reported hrep p hp
+        obtain ⟨hpage, hrep'⟩ := remakePageF_line_fits d hd hh index resume np right pending reported hrep p hp
         split at h
         · simp only [Option.some.injEq] at h
           subst h
@@ -420,9 +518,8 @@ theorem area_stacked (y : Rat) (l : List Fn) :
 
 /-! ### non-vacuity -/
 
-example : DecoOk C01Foot.exDoc.root.erase ∧ HeightsOk C01Foot.exDoc.root ∧
-    ∀ name, AreaHyp (C01Foot.exDoc.areaFor name) := by
-  refine ⟨?_, ?_, areaHyp_all _ ⟨by decide +kernel⟩ (by intro e he; cases he)⟩
+example : DecoOk C01Foot.exDoc.root.erase ∧ HeightsOk C01Foot.exDoc.root := by
+  refine ⟨?_, ?_⟩
   · simp [C01Foot.exDoc, C01Foot.exDocOf, FootBox.erase, eraseList, DecoOk, DecoOkList, PStyle.DecoOk, C01Foot.exSt]
     decide +kernel
   · simp only [C01Foot.exDoc, C01Foot.exDocOf, HeightsOk, HeightsOkList, List.mem_cons, List.not_mem_nil, or_false,
@@ -461,5 +558,16 @@ example :
     (R.fs.pageBottom, pbOf c R.fs.cur, R.fs.cur.map (·.fid), R.fs.reported.map (·.fid),
       R.r.frag.map (fun f => (placedLines f true (.para 1 5 10 C01Foot.exSt)).map (fun l => l.bottom))) =
     (30, 30, [1], [2], some [10, 20, 30]) := by decide +kernel
+
+/-- `single_chain_lines_above_area` is not vacuous: `exDoc` (html > body > one paragraph of 5 lines, 3 footnotes,
+one of them `footnote-policy: line`) is a single chain; per page the line bottoms and the area top. -/
+example : Single C01Foot.exDoc.root ∧ LineHOk C01Foot.exDoc.root ∧
+    (paginateFoot C01Foot.exDoc 20).map (fun ps => ps.map (fun p =>
+      ((placedLines p.page.root true (pageSourceF C01Foot.exDoc p).erase).map (fun l => l.bottom),
+        p.area.map (fun a => a.y)))) =
+    some [([10, 20, 30], some 30), ([10], some 20), ([10], some 10)] := by
+  refine ⟨by simp [C01Foot.exDoc, C01Foot.exDocOf, Single, SingleList], ?_, by decide +kernel⟩
+  simp only [C01Foot.exDoc, C01Foot.exDocOf, LineHOk, LineHOkList, and_true]
+  decide +kernel
 
 end Wp.C03FootGeo
